@@ -20,7 +20,7 @@ META = dict(
          'database layer (put_tasks_to_hold / put_workflow_hold_cycle_point) '
          'equals the in-memory set after every command.',
     note='parentless task "a" at points 1..3 (3 is inactive until spawned), '
-         'sequences of 3 (thorough 4) commands out of 11; restart '
+         'sequences of 3 (thorough 4) commands out of 12; restart '
          'persistence itself (sqlite tables tasks_to_hold / workflow_params) '
          'is outside - the check stops at the rows handed to the DB manager.',
     functions=['TaskPool.hold_tasks', 'TaskPool.release_held_tasks',
@@ -30,7 +30,7 @@ META = dict(
                'TaskPool.release_queued_tasks', 'TaskProxy.is_ready_to_run',
                'LimitedTaskQueue.release'],
     bounds=['commands: hold/release of 1/a, 2/a (active) and 3/a (inactive), '
-            'hold point 1 or 2, release hold point, spawn 3/a, queue+release '
+            'hold point 1, 2 or 3, release hold point, spawn 3/a, queue+release '
             'pass; length 3 quick / 4 thorough'],
     stubs=['workflow_db_mgr (records the rows it is given)',
            'data_store_mgr', 'task_events_mgr'],
@@ -50,7 +50,7 @@ def tok(p):
 def ops(o1: int, o2: int, o3: int, o4: int) -> bool:
     """
     pre: sl(o1=o1)
-    pre: 0 <= o1 <= 10 and 0 <= o2 <= 10 and 0 <= o3 <= 10 and 0 <= o4 <= 10
+    pre: 0 <= o1 <= 11 and 0 <= o2 <= 11 and 0 <= o3 <= 11 and 0 <= o4 <= 11
     post: _
     """
     with concrete():
@@ -68,7 +68,7 @@ def ops(o1: int, o2: int, o3: int, o4: int) -> bool:
     hold_point = None
     prepped = set()
     for o in (o1, o2, o3, o4)[:nops]:
-        o = fork_int(o, 0, 10)
+        o = fork_int(o, 0, 11)
         n_calls = len(db.calls)
         to_hold_before = set(to_hold)
         if o <= 2:
@@ -83,7 +83,7 @@ def ops(o1: int, o2: int, o3: int, o4: int) -> bool:
             if p in to_hold:
                 to_hold.discard(p)
                 held.discard(p)
-        elif o <= 7:
+        elif o <= 8:
             hp = o - 5
             pool.set_hold_point(IntegerPoint(str(hp)))
             hold_point = hp
@@ -91,12 +91,12 @@ def ops(o1: int, o2: int, o3: int, o4: int) -> bool:
                 if p > hp:
                     held.add(p)
                     to_hold.add(p)
-        elif o == 8:
+        elif o == 9:
             pool.release_hold_point()
             hold_point = None
             held.clear()
             to_hold.clear()
-        elif o == 9:
+        elif o == 10:
             if 3 in tasks:
                 continue
             t3 = pool.spawn_task('a', IntegerPoint('3'), {1})
@@ -139,14 +139,14 @@ def ops(o1: int, o2: int, o3: int, o4: int) -> bool:
             return False
         # what was handed to the DB layer by this command
         new = db.calls[n_calls:]
-        if o <= 8:
+        if o <= 9:
             puts = [c for c in new if c[0] == 'put_tasks_to_hold']
             if not puts and to_hold != to_hold_before:
                 return False           # change not handed to the DB
             if puts and {pt for (_n, pt) in puts[-1][1][0]} != {
                     IntegerPoint(str(p)) for p in to_hold}:
                 return False
-        if 6 <= o <= 8:
+        if 6 <= o <= 9:
             hp_puts = [c for c in new
                        if c[0] == 'put_workflow_hold_cycle_point']
             if not hp_puts:
@@ -162,14 +162,14 @@ def OBLIGATIONS(tier):
     big = tier == 'thorough'
     t = 1500 if big else 160
     return [Ob(f'ops[o1={o1}]', 'ops', timeout=t, twin=(o1 == 0),
-               slice={'o1': o1, 'n': 4 if big else 3}) for o1 in range(11)]
+               slice={'o1': o1, 'n': 4 if big else 3}) for o1 in range(12)]
 
 
 def VALIDATE():
     n = 0
     SLICE.update(n=4)
-    for seq in ((0, 10, 3, 10), (2, 9, 10, 5), (6, 9, 10, 8), (7, 10, 8, 10),
-                (9, 2, 10, 8), (1, 7, 4, 10)):
+    for seq in ((0, 11, 3, 11), (2, 10, 11, 5), (6, 10, 11, 9), (7, 11, 9, 11),
+                (10, 2, 11, 9), (1, 7, 4, 11), (8, 10, 11, 0)):
         SLICE['o1'] = seq[0]
         assert ops(*seq), seq
         n += 1
